@@ -57,4 +57,74 @@ pub fn char_to_owned(c: char) -> (r: String) ensures r@ == seq![c] { unimplement
 pub uninterp spec fn hex_digits(n: u32) -> Seq<char>;
 #[verifier::external_body]
 pub fn hex_escape(n: u32) -> (r: String) ensures r@ == seq!['\\', 'x'] + hex_digits(n) + seq!['\\'] { unimplemented!() }
-pub struct HCPrinter { pub quoted: bool }
+
+// ---- printer state for the canonical-output methods
+#[derive(Clone, Copy)]
+pub struct Atom { pub index: u64 }
+// derived PartialEq of the real Atom: equality of the index
+impl vstd::std_specs::cmp::PartialEqSpecImpl for Atom {
+    open spec fn obeys_eq_spec() -> bool { true }
+    open spec fn eq_spec(&self, other: &Atom) -> bool { self.index == other.index }
+}
+impl PartialEq for Atom {
+    fn eq(&self, other: &Atom) -> (r: bool) ensures r == (self.index == other.index) { self.index == other.index }
+}
+pub uninterp spec fn atom_index(s: Seq<char>) -> u64;
+// atom!("..."): the static atom with that text
+#[verifier::external_body]
+pub fn atom_of(s: &str) -> (r: Atom) ensures r.index == atom_index(s@) { unimplemented!() }
+#[derive(Clone, Copy)]
+pub struct OpSpec { pub bits: u8 }
+impl OpSpec {
+    pub uninterp spec fn infix(&self) -> bool;
+    pub uninterp spec fn prefix(&self) -> bool;
+    #[verifier::external_body] pub fn is_infix(&self) -> (r: bool) ensures r == self.infix() { unimplemented!() }
+    #[verifier::external_body] pub fn is_prefix(&self) -> (r: bool) ensures r == self.prefix() { unimplemented!() }
+}
+#[derive(Clone, Copy)]
+pub struct OpDesc { pub prec: u16, pub spec: u8 }
+impl OpDesc {
+    pub fn get_prec(&self) -> (r: u16) ensures r == self.prec { self.prec }
+    pub fn get_spec(&self) -> (r: OpSpec) ensures r.bits == self.spec { OpSpec { bits: self.spec } }
+}
+// what a printer method asked for, in call order (ghost)
+pub enum Call {
+    NumberedVars, List(usize), Op(usize, Atom, OpDesc), Curly(usize), Struct(usize, usize, Atom),
+    Clause(usize, usize, Atom, Option<OpDesc>),
+}
+pub enum TokenOrRedirect { Open, Close, Space, Other(u64) }
+#[derive(Clone, Copy)]
+pub enum DirectedOp { Left(Atom, OpDesc), Right(Atom, OpDesc) }
+#[verifier::external_body] pub struct AtomStr { _p: usize }
+impl Atom { #[verifier::external_body] pub fn as_str(&self) -> AtomStr { unimplemented!() } }
+impl DirectedOp {
+    #[verifier::external_body] pub fn as_atom(&self) -> Atom { unimplemented!() }
+    #[verifier::external_body] pub fn is_prefix(&self) -> bool { unimplemented!() }
+    #[verifier::external_body] pub fn is_left(&self) -> bool { unimplemented!() }
+}
+#[verifier::external_body] pub fn needs_bracketing(child_desc: OpDesc, op: &DirectedOp) -> bool { unimplemented!() }
+#[verifier::external_body] pub fn requires_space(atom: &AtomStr, op: &str) -> bool { unimplemented!() }
+#[verifier::external_body] pub struct Outp { _p: usize }
+impl Outp { #[verifier::external_body] pub fn ends_with(&self, s: &str) -> bool { unimplemented!() } }
+pub struct HCPrinter {
+    pub quoted: bool, pub numbervars: bool, pub ignore_ops: bool,
+    pub state_stack: Vec<TokenOrRedirect>,
+    pub calls: Ghost<Seq<Call>>,
+    pub outputter: Outp,
+    pub parent_of_first_op: Option<(DirectedOp, usize)>,
+    pub last_item_idx: usize,
+}
+impl HCPrinter {
+    #[verifier::external_body] pub fn immediate_leaf_is_nonnegative_number(&self) -> bool { unimplemented!() }
+}
+impl HCPrinter {
+    pub open spec fn logged(old_: HCPrinter, new_: HCPrinter, c: Call) -> bool {
+        new_.calls@ == old_.calls@.push(c) && new_.quoted == old_.quoted && new_.numbervars == old_.numbervars
+        && new_.ignore_ops == old_.ignore_ops && new_.state_stack@ == old_.state_stack@
+    }
+    #[verifier::external_body] pub fn format_numbered_vars(&mut self) -> (r: bool) ensures Self::logged(*old(self), *final(self), Call::NumberedVars) { unimplemented!() }
+    #[verifier::external_body] pub fn push_list(&mut self, max_depth: usize) ensures Self::logged(*old(self), *final(self), Call::List(max_depth)) { unimplemented!() }
+    #[verifier::external_body] pub fn enqueue_op(&mut self, max_depth: usize, name: Atom, spec: OpDesc) ensures Self::logged(*old(self), *final(self), Call::Op(max_depth, name, spec)) { unimplemented!() }
+    #[verifier::external_body] pub fn format_curly_braces(&mut self, max_depth: usize) -> (r: bool) ensures Self::logged(*old(self), *final(self), Call::Curly(max_depth)) { unimplemented!() }
+    #[verifier::external_body] pub fn format_struct(&mut self, max_depth: usize, arity: usize, name: Atom) -> (r: bool) ensures Self::logged(*old(self), *final(self), Call::Struct(max_depth, arity, name)) { unimplemented!() }
+}
